@@ -46,6 +46,11 @@ fn main() {
     match a.get(1).map(|s| s.as_str()) {
         Some("child") => {
             let dir = std::path::PathBuf::from(&a[2]); let seed: u64 = a[3].parse().unwrap();
+            // optional I/O fault: with a file-size limit the body write of a larger entry fails part-way (EFBIG, SIGXFSZ ignored) —
+            // what ENOSPC / EDQUOT / EIO do to a store
+            if let Some(limit) = a.get(4).and_then(|x| x.parse::<u64>().ok()) { unsafe {
+                libc::signal(libc::SIGXFSZ, libc::SIG_IGN);
+                let r = libc::rlimit { rlim_cur: limit, rlim_max: limit }; libc::setrlimit(libc::RLIMIT_FSIZE, &r); } }
             let rt = tokio::runtime::Builder::new_multi_thread().worker_threads(4).enable_all().build().unwrap();
             let dc = Arc::new(open(&dir, &rt));
             let mut hs = vec![];
@@ -74,10 +79,13 @@ fn main() {
             let tmp = tempfile::tempdir().unwrap(); let dir = tmp.path().join("cache");
             let rt = tokio::runtime::Builder::new_multi_thread().worker_threads(2).enable_all().build().unwrap();
             let exe = std::env::current_exe().unwrap();
-            let mut fails: Vec<String> = vec![]; let (mut hits, mut misses, mut temps_seen, mut pp_seen) = (0u64, 0u64, 0u64, 0u64); let mut samples = vec![];
+            let mut fails: Vec<String> = vec![]; let (mut hits, mut misses, mut temps_seen, mut pp_seen) = (0u64, 0u64, 0u64, 0u64); let mut write_fault_rounds = 0u64; let mut samples = vec![];
             for r in 0..rounds {
-                let mut child = std::process::Command::new(&exe).arg("child").arg(&dir).arg(format!("{}", rng.next() % 100_000)).stdout(std::process::Stdio::null()).stderr(std::process::Stdio::null()).spawn().unwrap();
-                std::thread::sleep(std::time::Duration::from_millis(20 + rng.below(280)));
+                // every third round the storing process runs under a 3 MB file-size limit: larger bodies fail in the middle of their write
+                let faulty = r % 3 == 2; if faulty { write_fault_rounds += 1; }
+                let mut cmd = std::process::Command::new(&exe); cmd.arg("child").arg(&dir).arg(format!("{}", rng.next() % 100_000)); if faulty { cmd.arg("3000000"); }
+                let mut child = cmd.stdout(std::process::Stdio::null()).stderr(std::process::Stdio::null()).spawn().unwrap();
+                std::thread::sleep(std::time::Duration::from_millis(if faulty { 250 + rng.below(250) } else { 20 + rng.below(280) }));
                 unsafe { libc::kill(child.id() as i32, libc::SIGKILL); } let _ = child.wait();
                 let temps_before: Vec<String> = walkdir::WalkDir::new(&dir).into_iter().filter_map(|e| e.ok()).filter(|e| e.file_name().to_string_lossy().starts_with(".sccachetmp")).map(|e| e.path().display().to_string()).collect();
                 temps_seen += temps_before.len() as u64;
@@ -111,7 +119,7 @@ fn main() {
                 if samples.len() < 3 { samples.push(line); }
             }
             let mut out = std::fs::File::create(&a[3]).unwrap();
-            write!(out, "{{\"rounds\":{},\"lookups_hit\":{},\"lookups_miss\":{},\"temp_files_left_by_kills\":{},\"preprocessor_entries_read\":{},\"monitor_failures\":[{}],\"samples\":[{}]}}", rounds, hits, misses, temps_seen, pp_seen, fails.join(","), samples.iter().map(|s| jstr(s)).collect::<Vec<_>>().join(",")).unwrap();
+            write!(out, "{{\"write_fault_rounds\":{},\"rounds\":{},\"lookups_hit\":{},\"lookups_miss\":{},\"temp_files_left_by_kills\":{},\"preprocessor_entries_read\":{},\"monitor_failures\":[{}],\"samples\":[{}]}}", write_fault_rounds, rounds, hits, misses, temps_seen, pp_seen, fails.join(","), samples.iter().map(|s| jstr(s)).collect::<Vec<_>>().join(",")).unwrap();
         }
         _ => { eprintln!("usage: h_disk run <rounds> <summary> | child <dir> <seed>"); std::process::exit(2); }
     }
